@@ -12,7 +12,7 @@ GEN = ["PictureParams"]
 RULE = ("exhaustive over the 27-symbol alphabet {S + - D B C R $ , / * V . A X 9 Z 0 P ( ) 1 2 3 s x ?} up to length 3 (quick) / 4 (thorough); "
         "random strings up to length 30 over the alphabet (plus a few foreign characters); well-formed pictures from a grammar generator "
         "(numeric with and without repeat counts, edited, alphanumeric, counts with leading zeros); every well-formed picture with one foreign "
-        "character injected at every position; a fixed witness list. Non-trivial = at least one scanner accepts the string (judge branch != 0); "
+        "character injected at every position; a fixed witness list; entry = well-formed pictures inside a data description entry, followed directly by nothing, a comma or a semicolon before the next clause (what the generator's clause scanner and the decoder's clause scanner each take as the picture, and how each then treats it). Non-trivial = at least one scanner accepts the string (judge branch != 0); "
         "distinct = distinct case lines.")
 TRIVIAL_BRANCHES = [0]
 ASSUMPTIONS = [
@@ -112,7 +112,10 @@ def inputs(ctx):
     """every generated string passes through one filter: a parenthesis is followed by at most three
     decimal digits (four when the first is a zero), so that int(count) * char stays small (resource limit, see ASSUMPTIONS)"""
     for stream, text in _inputs(ctx):
-        yield stream, _COUNT.sub(_truncate, text)
+        if isinstance(text, dict):
+            yield stream, dict(text, text=_COUNT.sub(_truncate, text["text"]))
+        else:
+            yield stream, _COUNT.sub(_truncate, text)
 
 
 def _inputs(ctx):
@@ -148,6 +151,11 @@ def _inputs(ctx):
         p = numeric_picture(rng, True); wf.append(p); yield label("wf_numeric_repeat", p), p
         p = edited_picture(rng); wf.append(p); yield label("wf_edited", p), p
         p = alnum_picture(rng); wf.append(p); yield label("wf_alnum", p), p
+    # the same pictures inside a data description entry, followed by nothing, a comma or a semicolon before the next clause:
+    # both sides must take the SAME picture string out of the entry and treat it as they treat that string alone
+    for i, p in enumerate(wf[: (400 if quick else 6000)]):
+        if len(p) <= 40:
+            yield "entry", {"text": p, "sep": [0, 44, 59][i % 3]}
     # letter case: the same pictures in lower case
     for p in wf[: (200 if quick else 4000)]:
         yield "wf_lower", p.lower()
@@ -175,7 +183,33 @@ def _parsed(r):
     return [r.picture_size, S(g[0]), S(g[1]), S(g[2]), S(g[3]), bool(r.zoned_decimal), _elems(r.picture_elements)]
 
 
-def observe(ctx, text):
+def observe(ctx, inp):
+    from stingray import estruct, cobol_parser
+    text = inp["text"] if isinstance(inp, dict) else inp
+    out = _observe_string(text)
+    if isinstance(inp, dict):
+        import io
+        sep = inp["sep"]
+        other = text + chr(sep) if sep else text
+        entry = f"       05  X PIC {text}{chr(sep) if sep else ''} USAGE DISPLAY.\n"
+        hold = {}
+
+        def gpic():
+            dde = list(cobol_parser.structure(cobol_parser.dde_sentences(cobol_parser.reference_format(io.StringIO(entry)))))[0]
+            hold["js"] = cobol_parser.JSONSchemaMaker().jsonschema(dde)
+            return dde.clauses["picture"]
+        g = observe_call(gpic, S)
+        if "js" in hold:
+            d_ent = observe_call(lambda: estruct.Representation.parse(hold["js"]["cobol"]), _parsed)
+            g_conv = observe_call(lambda: hold["js"].get("conversion") == "decimal", bool)
+        else:
+            d_ent, g_conv = [2], [2]
+        o2 = _observe_string(other)
+        out.append([sep, g, d_ent, g_conv, o2[3], o2[5]])
+    return out
+
+
+def _observe_string(text):
     from stingray import estruct, cobol_parser
     applicable = text != "" and not any(ch.isspace() for ch in text)
     dn = observe_call(lambda: estruct.Representation.normalize_picture(text), _elems)
@@ -193,5 +227,7 @@ def observe(ctx, text):
     return [S(text), applicable, dn, dp, gn, gc1, gc2]
 
 
-def describe(text):
-    return repr(text)
+def describe(inp):
+    if isinstance(inp, dict):
+        return f"entry: 05 X PIC {inp['text']}{chr(inp['sep']) if inp['sep'] else ''} USAGE DISPLAY."
+    return repr(inp)
